@@ -11,3 +11,4 @@ Theorem C14_rs_no_release_event :
   map (fun o => skipn 4 o) (rs_run cfg1 true rs_init [KKol 1; KPress 0; KTick; KRelease 0; KTick; KTick; KTick; KPress 0; KTick])
   = [[]; []; [0]; [0]; [0]; [0]; [0]; [0]; [0; 0]].
 Proof. vm_compute. reflexivity. Qed.
+Print Assumptions C14_rs_no_release_event.
